@@ -890,6 +890,28 @@ def norm_func(repo: Repo, fi: FuncInfo, depth: int = 3, no_inline: Optional[Set[
     node = _copy.deepcopy(fi.node)
     cur = FuncInfo(fi.module, fi.qualname, node, fi.cls, fi.parent)
     changed_any = False
+
+    # `x: T = v` is `x = v` for every rule (annotations carry no behaviour)
+    class _DeAnn(ast.NodeTransformer):
+        def visit_AnnAssign(self, n):
+            nonlocal changed_any
+            if n.value is None:
+                return n
+            changed_any = True
+            return ast.copy_location(ast.Assign(targets=[n.target], value=n.value), n)
+
+        def visit_FunctionDef(self, n):
+            return n if n is not node else self.generic_visit(n)
+
+        visit_AsyncFunctionDef = visit_FunctionDef
+
+        def visit_Lambda(self, n):
+            return n
+
+        def visit_ClassDef(self, n):
+            return n
+
+    _DeAnn().visit(node)
     for _round in range(depth):
         changed = False
 
